@@ -70,12 +70,11 @@ func (d *dec) object(addr uint64, path string) *Object {
 				sp = d.decodeDataspace(body, at)
 				d.trailing(body, sp.encLen, h.version, what)
 			case mDatatype:
-				c := d.cursor(body, at, what)
-				o.Type = d.decodeDatatype(c, 0)
+				// version 1 headers pad message bodies to 8 bytes and old writers sized datatype messages by an
+				// upper bound; in version 2 headers the body is exactly the encoding
+				o.Type = d.datatypeMsg(body, at, what, h.version != 1 && sharedAt == UndefAddr)
 				if sharedAt != UndefAddr {
 					o.Type.Shared, o.Type.SharedAddr = true, sharedAt
-				} else {
-					d.trailing(body, c.pos, h.version, what)
 				}
 			case mLayout:
 				lay = d.decodeLayout(body, at)
